@@ -21,6 +21,7 @@ pub fn build(family: &str, rng: &mut Rng, index: u64) -> Option<Plan> {
 		"F4g" => f4g(index),
 		"F4c" => f4c(index),
 		"F4t" => f4t(index),
+		"F4u" => f4u(index),
 		"F1o" => f1o(index),
 		"F1s" => f1s(index),
 		// issuance swarm: standard hooks (C01/C04/C05/C13) and generated hook tables (C10)
@@ -1239,5 +1240,43 @@ fn f4t(index: u64) -> Option<Plan> {
 		only: vec![],
 	}];
 	p.note = format!("F4t twins {} / {}, named {}, kp_reuse {}, salt {}", CHEAP_KEY_TYPES[a], CHEAP_KEY_TYPES[b], g[1], g[2], g[3]);
+	Some(p)
+}
+
+/// F4u: a certificate file that exists but cannot be parsed (empty as left by a crash between open
+/// and write, garbage, a PEM frame around nonsense) beside a usable key: the daemon cannot schedule
+/// that certificate and retries the evaluation with its back-off (1 min, 10 min, 100 min, 1 day,
+/// 1 day, ...) for several virtual days, while the other certificates must be served.
+fn f4u(index: u64) -> Option<Plan> {
+	let g = grid(index, &[3, 2, 2])?;
+	let mut rng = Rng::new(0xF4B ^ index);
+	let n = 2 + g[1] as usize;
+	let mut p = simple_plan(&mut rng, n);
+	let kt = p.config.certificates[0].key_type.clone().unwrap_or_else(|| "rsa2048".into());
+	p.world.pre_files = vec![
+		PreFile {
+			target: "pk:0".into(),
+			content: format!("key:{}", kt),
+			lifetime_s: 0,
+			mode: Some(0o600),
+		},
+		PreFile {
+			target: "crt:0".into(),
+			content: ["empty", "garbage:300", "text:-----BEGIN CERTIFICATE-----\nAAAA\n-----END CERTIFICATE-----\n"][g[0] as usize].into(),
+			lifetime_s: 0,
+			mode: Some(0o644),
+		},
+	];
+	p.ops = vec![
+		Op::Run {
+			attempts: 1,
+			max_virtual_s: 3_000,
+			only: (1..n).collect(),
+		},
+		Op::RunFor {
+			virtual_s: [2 * 86_400 + 8_000, 5 * 86_400][g[2] as usize],
+		},
+	];
+	p.note = format!("F4u unreadable certificate file kind {}, {} other certificates, span {}", g[0], n - 1, g[2]);
 	Some(p)
 }
